@@ -109,6 +109,7 @@ func init() {
 			{Scenario: "core-forge", Stratum: "", Quick: 600, Thorough: 20000, PerJob: 16},
 			{Scenario: "xfer", Stratum: "", Quick: 400, Thorough: 10000, PerJob: 8},
 			{Scenario: "core", Stratum: "reopen", Quick: 40, Thorough: 400, PerJob: 8},
+			{Scenario: "xfer", Stratum: "fec-window", Quick: 400, Thorough: 10000, PerJob: 8},
 		},
 		QuickBudget: 60 * time.Second, ThoroughBudget: 25 * time.Minute,
 		Rule: "evaluations = seeded simulated runs; after EVERY harness event (API call or processed datagram) the oracle reads queue occupancies through hook H1 and compares them with the windows the harness configured, compares the wnd field of every emitted segment (independent decoder) with the free space of the delivery queue at the end of that step, and checks that new sequence numbers reach the wire only within min(send window, last window delivered to this endpoint, congestion window at the start of the step + growth); 'core-forge' = a scripted adversary that ignores the window and forges sn/una/wnd/ts/len. Non-trivial = fault fired (or forgery accepted) and progress; distinct = distinct event-log hashes",
